@@ -219,15 +219,14 @@ structure PredOut where
 /-- `t.Masked<Op>(lits...)`; a literal is (token, element type) -/
 def maskPred (s : St) (t : Dense) (op : String) (lits : List (String × String)) : Res PredOut := do
   if op == "values" && !(floatTypes.contains t.dt) then throwErr "MaskedValues: floating point types only"
+  -- `typeclassCheck(t.t, ordTypes)` of every other predicate: an element type the type switch has no arm for
+  -- (bool, complex, uintptr, …) is refused before the mask is touched. (The `default:` arm of the switch says the
+  -- same for types registered as ordered by the caller; no such type exists in the model.)
+  if !(predTypes op).contains t.dt then throwErr "unsupportedDtype"
   let (s, t) ← (if !t.isMasked then makeMask s t else pure (s, t) : Res (St × Dense))
   match t.mask with
   | none => pure { st := s, t := t, terms := [], allKnown := true }
   | some m =>
-    if !(predTypes op).contains t.dt then
-      -- no arm in the type switch: nil is returned, the mask stays as (made)
-      let bits ← maskBits s m
-      pure { st := s, t := t, terms := bits.map bitLit, allKnown := true }
-    else
     if lits.any (fun l => l.2 != t.dt) then throwPanic "interface conversion (literal of another type)"
     let lv := lits.map (fun l => Val.lit s!"{l.1}:{l.2}")
     let soft := t.maskSoft
@@ -844,11 +843,15 @@ def stepS (psBefore psAfter : PState) (ss : SState) (_stepIdx : Nat) (toks : Lis
       let lits := litToks.filterMap (parseLit d.dt)
       if lits.length != litToks.length || lits.length < lo || lits.length > hi then fin ss none else
       -- the property's domain: ordered predicates on ordered types, (in)equality on every comparable
-      -- type, by-values on floats; the literal must have the element type
+      -- type, by-values on floats; the literal must have the element type. The library's (in)equality
+      -- predicates have a comparison for the ordered types only and refuse bool / complex tensors with an
+      -- error (the former finding F86: they returned nil and marked nothing): S accepts that refusal — and
+      -- then nothing may have changed, no mask is made — or the marks it defines.
       let dom := if op == "values" then floatTypes else if op == "eq" || op == "ne" then eqTypes.filter (· != "uptr") else ordTypes
       if op == "values" && !floatTypes.contains d.dt then fin ss none else
       if !dom.contains d.dt || lits.any (fun l => l.2 != d.dt) || mode == "dflt" then
         fin (setRootMask ss o.root .unknown) none else
+      if !(predTypes op).contains d.dt && mres != "ok" then fin ss (some "r=ok|err") else
       let soft := mode == "soft"
       let others := (List.range ss.objs.size).any (fun j => j != id && (match ss.objs[j]? with
         | some (some o') => o'.root == o.root | _ => false))
@@ -998,10 +1001,6 @@ def stepS (psBefore psAfter : PState) (ss : SState) (_stepIdx : Nat) (toks : Lis
     window since `makeMask` looks at the data: the bits of the gaps are not bits of any element.) -/
 def Excl_predRawWindow (t : Dense) : Bool := t.isMasked && (t.win.len : Int) != totalSize t.shape
 
-/-- F86: (in)equality predicates have no arm for bool and complex tensors: `nil` is returned and
-    nothing is marked. -/
-def Excl_predNoArm (op dt : String) : Bool := (op == "eq" || op == "ne") && ["b", "c64", "c128"].contains dt
-
 /-- F81: the run / edge finders report what `NextValid` / `NextInvalid` return, i.e. *storage
     offsets*; they are flat indices only when the tensor is walked in storage order. -/
 def Excl_runsStorageOffsets (t : Dense) : Bool := t.isMasked && t.offsets != rangeI t.size.toNat
@@ -1014,9 +1013,9 @@ def Excl_reduceAxis (t : Dense) (ax : Int) : Bool :=
 def excl (ps : PState) (toks : List String) : List String × Bool :=
   let tag (b : Bool) (s : String) : List String := if b then [s] else []
   match toks with
-  | "mpred" :: op :: v :: _ =>
+  | "mpred" :: _ :: v :: _ =>
     match ps.obj v with
-    | some (_, t) => (tag (Excl_predRawWindow t) "F80" ++ tag (Excl_predNoArm op t.dt) "F86", true)
+    | some (_, t) => (tag (Excl_predRawWindow t) "F80", true)
     | none => ([], false)
   | ["mruns", _, v] =>
     match ps.obj v with
